@@ -112,6 +112,9 @@ def run_history(ck: Check, det, cfg, ops):
                 for k in cb.additional_vars:
                     v = d.additional_vars[k]
                     cur[k] = scalar(v.get() if isinstance(v, BaseStat) else v)
+                if set(cb.history) != {"value", "num_instances", "drift"} | set(d.additional_vars.keys()):
+                    ck.violation(dict(clause="tracked-variables", detector=det.name, when="after-updates"), dict(what="the history no longer holds one list per tracked variable (value, num_instances, drift and the detector's additional variables)", history_keys=sorted(cb.history), detector_vars=sorted(d.additional_vars.keys()), **detail))
+                    return None
                 for k, lst in cb.history.items():
                     if len(lst) != upd:
                         ck.violation(dict(clause="one-entry-per-update", detector=det.name), dict(what=f"history[{k!r}] has {len(lst)} entries after {upd} updates since reset", **detail))
@@ -436,6 +439,50 @@ def run_reset(ck: Check):
             ck.count("tiny_p_cases")
             if was_reset != (p0 <= alpha) or res_ is None or float(res_.p_value) != p0:
                 ck.violation(dict(clause="reset-iff", detector="KSTest", p="tiny"), dict(what="reset decision differs from (p <= alpha) for a tiny p-value / tiny alpha", detector="KSTest", alpha=alpha, p=p0, was_reset=was_reset, n=nsep, reference=ref.tolist(), sample=x.tolist()))
+    # a p-value that underflows to exactly 0.0 (fully separated long samples) is <= alpha: the strongest evidence resets
+    for cls in (KSTest,):
+        ref, x = np.arange(2000, dtype=float) / 1000.0, np.arange(2000, dtype=float) / 1000.0 + 50.0
+        twin = cls()
+        twin.fit(X=ref)
+        p0 = float(twin.compare(X=x)[0].p_value)
+        for alpha in (0.05, 1e-300):
+            d = cls(callbacks=[ResetStatisticalTest(alpha=alpha)])
+            d.fit(X=ref)
+            res_, _ = d.compare(X=x)
+            was_reset = d.X_ref is None
+            ck.case(dict(detector=cls.__name__, alpha=alpha, kind="zero-p", p=p0), nontrivial=True, key=repr(("zerop", cls.__name__, alpha)))
+            ck.count("zero_p_cases")
+            if p0 <= alpha and (not was_reset or res_ is None or float(res_.p_value) != p0):
+                ck.violation(dict(clause="reset-iff", detector=cls.__name__, p="zero"), dict(what="a p-value of exactly 0.0 (<= alpha) did not reset the detector / the result was lost", detector=cls.__name__, alpha=alpha, p=p0, was_reset=was_reset))
+    # a detector with its callbacks deep-copied / pickled in mid-use: the copy's callbacks stay attached to the COPY (the
+    # reset callback fires on it, the history callback keeps recording) and the original is untouched
+    import copy as _copy, pickle as _pickle
+    from frouros.callbacks import HistoryConceptDrift as _H2
+    from frouros.detectors.concept_drift import DDM as _DDM2
+
+    for how in ("deepcopy", "pickle"):
+        dup = (lambda o: _copy.deepcopy(o)) if how == "deepcopy" else (lambda o: _pickle.loads(_pickle.dumps(o)))
+        try:
+            d = KSTest(callbacks=[ResetStatisticalTest(alpha=0.5)])
+            ref, x = np.arange(30, dtype=float), np.arange(30, dtype=float) + 12.0
+            d.fit(X=ref)
+            d2 = dup(d)
+            r2, _ = d2.compare(X=x)
+            ok_reset = d2.X_ref is None and d.X_ref is not None and r2 is not None
+            h = _DDM2(callbacks=[_H2(name="h")])
+            for v in (0, 1, 0):
+                h.update(value=v)
+            h2 = dup(h)
+            logs = h2.update(value=1)
+            ok_hist = len(logs["h"]["value"]) == 4 and len(h.update(value=0)["h"]["value"]) == 4
+            err = None
+        except Exception as e:  # noqa: BLE001
+            ok_reset = ok_hist = False
+            err = repr(e)
+        ck.case(dict(kind="callbacks-after-" + how), nontrivial=True, key=repr(("cb-dup", how)))
+        ck.count("callbacks_after_copy_cases")
+        if not (ok_reset and ok_hist):
+            ck.violation(dict(clause="callbacks-attached", scenario=how), dict(what=f"after {how} of a detector its callbacks no longer act on the copy (reset callback / history callback)", reset_callback_ok=ok_reset, history_callback_ok=ok_hist, error=err))
     res = coq_eval("C17r", HDR17, exprs, shard=60)
     for (name, alpha, ops, cur, outs), r in zip(cases, res):
         ck.corr_cases += 1
